@@ -69,6 +69,7 @@ def run(ck, F, E):
     kinds(ck, F, E)
     statement_checks(ck, F)
     user_functions(ck, F)
+    resolution_order(ck, F)
     jump_targets(ck, F)
     resume_rule(ck, F, "C06")
 
@@ -385,6 +386,42 @@ def user_functions(ck, F):
     else:
         ck.ok("C06:KIND:def-body-unchecked", "user functions",
               "call kind by name=%s, body checked against the name=%s" % (by_name, body_checked), "", a.span)
+
+
+def resolution_order(ck, F):
+    """Both forks resolve a called name the same way: builtins first, a DEF of the same name only when the name is not a
+    builtin.  Descriptor per fork: is the user-function lookup control dependent on the None arm of Builtin::try_from?"""
+    from lib import controlling_switches
+    desc = {}
+    for side, path in (("interpreter", EV_E + "::evaluate_function_call"), ("analyzer", AN_E + "::evaluate_function_call")):
+        b = F.bodies.get(path)
+        if b is None:
+            ck.missing("C06:RESOLVE:%s" % side, path)
+            return
+        us = [c for c in b.calls() if c.callee.endswith("::evaluate_user_defined_function_call")]
+        bs = [c for c in b.calls() if c.callee.endswith("TryFrom>::try_from") or c.callee.endswith("Builtin::try_from")]
+        if not us or not bs:
+            desc[side] = "user-lookups=%d builtin-lookups=%d" % (len(us), len(bs))
+            continue
+        d = []
+        for u in us:
+            under_none = False
+            for (sb, subj, names) in controlling_switches(b, u.bb):
+                if names and set(names.values()) == {"None", "Some"} and any(len(x) > 3 and x[3] in bs for x in expr_calls(subj)):
+                    info = b.switch_info(sb)
+                    for v, n in names.items():
+                        if n == "None":
+                            t = info[1].get(v, info[2])
+                            if t is not None and (t == u.bb or b.dominates(t, u.bb)):
+                                under_none = True
+            d.append("DEF lookup only when the name is not a builtin" if under_none else "DEF lookup regardless of builtins")
+        desc[side] = "; ".join(sorted(set(d)))
+    ck.require(desc.get("interpreter") == desc.get("analyzer") and "only when" in desc.get("interpreter", ""),
+               "C06:RESOLVE:builtin-before-def", "name resolution agreement",
+               "both forks: %s" % desc.get("interpreter"),
+               "the interpreter and the analyzer resolve a called name differently (interpreter: %s; analyzer: %s): a program that "
+               "DEFs a function named like a builtin is checked against one meaning and run with the other" %
+               (desc.get("interpreter"), desc.get("analyzer")))
 
 
 # ------------------------------------------------------------------------------------- 5
